@@ -7,6 +7,7 @@ import (
 	"fmt"
 	"io"
 	"sync"
+	"time"
 
 	sdb "github.com/alicebob/sqlittle/db"
 )
@@ -36,6 +37,8 @@ type tracePager struct {
 	gate func(ev event)
 	// preLock, when set, is called at the beginning of RLock, before the pager's lock call
 	preLock func()
+	// delay, when set, is slept before every page read
+	delay time.Duration
 	// postGate, when set, is called after the event has been recorded: the state change has
 	// happened and is not yet visible to the caller (blocking here parks the operation)
 	postGate func(ev event)
@@ -69,6 +72,9 @@ func (t *tracePager) take() []event {
 var errInjected = errors.New("injected I/O error")
 
 func (t *tracePager) Page(n int, pagesize int) ([]byte, error) {
+	if t.delay > 0 {
+		time.Sleep(t.delay) // a slow disk: operations take long enough for other steps to fall in between
+	}
 	t.mu.Lock()
 	t.reads++
 	k := t.reads
